@@ -501,3 +501,45 @@ Proof.
   exists (mkSig [mkParam 10 VK None None UEmpty] None UEmpty [] []), 0%nat, [(10, 5)], 200, (mkCall 0 []).
   repeat split; try reflexivity. constructor; [intros []|constructor].
 Qed.
+
+(* the hypotheses are satisfiable on non-trivial inputs *)
+Definition ex_sig : sigT :=
+  mkSig [mkParam 1 PO None None UEmpty; mkParam 2 PK None None UEmpty;
+         mkParam 3 PK (Some 1) None UEmpty; mkParam 9 VP None None UEmpty;
+         mkParam 4 KO None None UEmpty; mkParam 10 VK None None UEmpty] None UEmpty [] [].
+
+Lemma nodup3 (a b c : N) : a <> b -> a <> c -> b <> c -> NoDup [a; b; c].
+Proof.
+  intros H1 H2 H3. constructor; [intros [X|[X|[]]]; congruence|].
+  constructor; [intros [X|[]]; congruence|]. constructor; [intros []|constructor].
+Qed.
+
+Example mask_names_exact_nonvacuous :
+  valid_sig (params ex_sig) = true /\ NoDup [3; 77; 4] /\
+  avoid_consumed_po (params ex_sig) 1 [3; 77; 4] = true /\
+  option_map (fun r => map (fun p => (pname p, pkind p)) (params r))
+             (match mask ex_sig 1 [3; 77; 4] nohide0 with Ok r => Some r | Err _ => None end)
+  = Some [(2, PK); (10, VK)].
+Proof.
+  split; [vm_compute; reflexivity|]. split; [apply nodup3; discriminate|].
+  split; vm_compute; reflexivity.
+Qed.
+
+Example partial_names_exact_nonvacuous :
+  valid_sig (params ex_sig) = true /\ NoDup (map fst [(2, 5); (77, 6); (4, 7)]) /\
+  names_passable (params ex_sig) (map fst [(2, 5); (77, 6); (4, 7)]) = true /\
+  option_map (fun r => map (fun p => (pname p, pkind p, pdef p)) (params r))
+             (match sig_partial ex_sig 1 [(2, 5); (77, 6); (4, 7)] 200 with Ok r => Some r | Err _ => None end)
+  = Some [(4, KO, Some 7); (3, KO, Some 1); (2, KO, Some 5); (77, KO, Some 6); (10, VK, None)].
+Proof.
+  split; [vm_compute; reflexivity|]. split; [apply nodup3; discriminate|].
+  split; vm_compute; reflexivity.
+Qed.
+
+Print Assumptions mask_gen_exact.
+Print Assumptions mask_names_exact.
+Print Assumptions mask_names_exact_refuted.
+Print Assumptions partial_names_exact.
+Print Assumptions partial_names_exact_refuted.
+Print Assumptions mask_names_exact_nonvacuous.
+Print Assumptions partial_names_exact_nonvacuous.
